@@ -35,12 +35,20 @@
       `hx_line_cseq`, and message level: `hx_cseq_number_before_method` (from `HxMsg`), `_init`, `_schedule_init` ("a CSeq
       header was accepted" = its type flag is set, also when the header array was too small to store it).
       Why strict: the number ends at a white-space byte and the method starts at a byte that is not white space.
-  Non-vacuity / tests at the end (`hxTest_msg` and the `decide +kernel` examples: labelled tests, not the general claims).
+  (3) trimming of name-addr values: `hx_value_last_byte` (`HxTrC`, spelled out in `HxTrC.meaning`): whenever
+      ParseNameAddrPVal, started on a new object, says OK or "more values" (any header kind), the LAST byte of `V` is not
+      SP / HT / CR / LF — except in ONE shape: verdict "more values", the byte at the end of `V` is the comma, and `V` ends
+      with a non-empty run of white space that directly follows a `;` (empty parameter, `<a>; ,<b>`) or a `=` (empty
+      parameter value, `<a>;tag= ,<b>`).  `hx_value_last_byte_ok`: never after OK.  `hx_params_last_byte`: the same for the
+      parameter span (it ends where `V` ends).  Loop invariant `HxTrI` over the 33-state automaton (`hx_tr_cont`,
+      `hx_tr_done`), with `hx_skipLWS_ok_run` (every byte skipped by skipLWS is white space).
+  Non-vacuity / tests (`hxTest_msg` and the `decide +kernel` examples: labelled tests, not the general claims).
   NOT proved here: that the counts `cnt` are unique (they are, because the header values do not overlap — `HlsLo` — and the
   stored values are not empty, but this is not derived); that the `val` of a Contact header starts with its first value and
   ends with its last one (only containment); (1) for objects suspended in the middle of a header line other than through
-  the one-shot equivalence (growing prefixes within the size limit); trimming of white space inside name-addr spans
-  (task item (3): see the final report of this file's author — the shapes are described there, not proved).
+  the one-shot equivalence (growing prefixes within the size limit); (3) at message level (for From / To and every stored
+  Contact / identity value after ParseSIPMsg): only the ParseNameAddrPVal statement is proved; leading white space /
+  white space inside the spans other than at the end.
 -/
 import Sipsp.Proofs.PaiLines
 
@@ -1108,5 +1116,994 @@ example :
     (parseCSeqVal "1 R\r\n\r\n".toUTF8.data 0 {}).2.1 = .ok ∧
     ((parseCSeqVal "1 R\r\n\r\n".toUTF8.data 0 {}).2.2.cseq, (parseCSeqVal "1 R\r\n\r\n".toUTF8.data 0 {}).2.2.method) =
       (⟨0, 1⟩, ⟨2, 1⟩) := by decide +kernel
+
+/-! ### (3) trimming: the last byte of a reported name-addr value -/
+
+theorem hx_skipCRLF_run {b : Buf} {i n crl : Nat} (h : skipCRLF b i = (n, crl, Err.ok)) :
+    ∀ k, i ≤ k → k < n → ∃ c, b[k]? = some c ∧ isLWSch c = true := by
+  unfold skipCRLF at h
+  cases h1 : b[i+1]? with
+  | none =>
+    rw [h1] at h
+    simp only at h
+    split at h
+    · split at h <;> cases h
+    · cases h
+  | some c1 =>
+    rw [h1] at h
+    simp only at h
+    cases h0 : b[i]? with
+    | none => rw [h0] at h; cases h
+    | some c0 =>
+      rw [h0] at h
+      simp only at h
+      by_cases e13 : (c0 == 13) = true
+      · simp only [e13, ↓reduceIte] at h
+        have hc0 : isLWSch c0 = true := by
+          have : c0 = 13 := by simpa using e13
+          subst this; decide
+        by_cases e10 : (c1 == 10) = true
+        · simp only [e10, ↓reduceIte, Prod.mk.injEq] at h
+          obtain ⟨rfl, _, _⟩ := h
+          intro k k1 k2
+          have hc1 : isLWSch c1 = true := by
+            have : c1 = 10 := by simpa using e10
+            subst this; decide
+          by_cases hk : k = i
+          · subst hk; exact ⟨c0, h0, hc0⟩
+          · have : k = i + 1 := by omega
+            subst this; exact ⟨c1, h1, hc1⟩
+        · simp only [e10, Bool.false_eq_true, ↓reduceIte, Prod.mk.injEq] at h
+          obtain ⟨rfl, _, _⟩ := h
+          intro k k1 k2
+          have : k = i := by omega
+          subst this; exact ⟨c0, h0, hc0⟩
+      · simp only [e13, Bool.false_eq_true, ↓reduceIte] at h
+        by_cases e10 : (c0 == 10) = true
+        · simp only [e10, ↓reduceIte, Prod.mk.injEq] at h
+          obtain ⟨rfl, _, _⟩ := h
+          intro k k1 k2
+          have : k = i := by omega
+          subst this
+          refine ⟨c0, h0, ?_⟩
+          have : c0 = 10 := by simpa using e10
+          subst this; decide
+        · simp only [e10, Bool.false_eq_true, ↓reduceIte] at h
+          cases h
+
+/-- on `Ok` every byte the scan skipped is white space (SP, HT, CR, LF) -/
+theorem hx_skipLWS_ok_run (b : Buf) (i flags : Nat) {n crl : Nat} (h : skipLWS b i flags = (n, crl, .ok)) :
+    ∀ k, i ≤ k → k < n → ∃ c, b[k]? = some c ∧ isLWSch c = true := by
+  fun_induction skipLWS b i flags with
+  | case1 i hb => cases h
+  | case2 i c hb hws ih =>
+    intro k k1 k2
+    by_cases hk : k = i
+    · subst hk
+      refine ⟨c, hb, ?_⟩
+      simp only [isWS, isLWSch, Bool.or_eq_true] at hws ⊢
+      rcases hws with hws | hws <;> simp [hws]
+    · exact ih h k (by omega) k2
+  | case3 i c hb hws hcr n' crl' hs hb2 hfl => cases h
+  | case4 i c hb hws hcr n' crl' hs hb2 hfl => cases h
+  | case5 i c hb hws hcr n' crl' hs c2 hb2 hws2 ih =>
+    intro k k1 k2
+    by_cases hk : k < n'
+    · exact hx_skipCRLF_run hs k k1 hk
+    · by_cases hk2 : k = n'
+      · subst hk2
+        refine ⟨c2, hb2, ?_⟩
+        simp only [isWS, isLWSch, Bool.or_eq_true] at hws2 ⊢
+        rcases hws2 with hws2 | hws2 <;> simp [hws2]
+      · exact ih h k (by omega) k2
+  | case6 i c hb hws hcr n' crl' hs c2 hb2 hws2 => cases h
+  | case7 i c hb hws hcr n' crl' e' hne hs => cases h; exact (hne rfl).elim
+  | case8 i c hb hws hcr =>
+    cases h
+    intro k k1 k2; omega
+
+/-- the byte before position `i` exists and is not white space (SP, HT, CR, LF) -/
+def HxNL (b : Buf) (i : Nat) : Prop := ∃ c, 0 < i ∧ b[i - 1]? = some c ∧ isLWSch c = false
+
+/-- … and it is the byte `d` if several values are allowed for this header -/
+def HxNLc (mv : Bool) (d : UInt8) (b : Buf) (i : Nat) : Prop :=
+  ∃ c, 0 < i ∧ b[i - 1]? = some c ∧ isLWSch c = false ∧ (mv = true → c = d)
+
+/-- position `i` is preceded by a non-empty run of white space that follows a byte `c0` at `j` (which is `;` or `=`
+    if several values are allowed) -/
+def HxRun (mv : Bool) (b : Buf) (i : Nat) : Prop :=
+  ∃ j c0, j + 1 < i ∧ b[j]? = some c0 ∧ isLWSch c0 = false ∧ (mv = true → c0 = 59 ∨ c0 = 61) ∧
+    ∀ k, j < k → k < i → ∃ c', b[k]? = some c' ∧ isLWSch c' = true
+
+/-- … and the byte at `i` is not white space -/
+def HxGap (mv : Bool) (b : Buf) (i : Nat) : Prop := HxRun mv b i ∧ ∃ c, b[i]? = some c ∧ isLWSch c = false
+
+theorem HxNLc.nl {mv : Bool} {d : UInt8} {b : Buf} {i : Nat} (h : HxNLc mv d b i) : HxNL b i := by
+  obtain ⟨c, h1, h2, h3, _⟩ := h; exact ⟨c, h1, h2, h3⟩
+
+theorem hx_nl_succ {b : Buf} {i : Nat} {c : UInt8} (hb : b[i]? = some c) (hl : isLWSch c = false) : HxNL b (i + 1) :=
+  ⟨c, by omega, by simpa using hb, hl⟩
+
+theorem hx_nlc_succ (mv : Bool) (d : UInt8) {b : Buf} {i : Nat} {c : UInt8} (hb : b[i]? = some c) (hl : isLWSch c = false)
+    (hd : mv = true → c = d) : HxNLc mv d b (i + 1) :=
+  ⟨c, by omega, by simpa using hb, hl, hd⟩
+
+/-- white space skipped from a position whose predecessor is not white space -/
+theorem hx_gap_of_skip {mv : Bool} {d : UInt8} {b : Buf} {i n crl : Nat} {c : UInt8} (hb : b[i]? = some c)
+    (hl : isLWSch c = true) (hsk : skipLWS b i 0 = (n, crl, .ok)) (hd : d = 59 ∨ d = 61)
+    (h : HxNLc mv d b i ∨ HxGap mv b i) : HxGap mv b n := by
+  have hgt := skipLWS_ok_gt b i 0 hb hl hsk
+  obtain ⟨_, cn, hcn, hln⟩ := skipLWS_ok b i 0 hsk
+  have hrun := hx_skipLWS_ok_run b i 0 hsk
+  rcases h with ⟨c0, h1, h2, h3, h4⟩ | ⟨_, c1, hc1, hl1⟩
+  · refine ⟨⟨i - 1, c0, by omega, h2, h3, fun hm => ?_, fun k k1 k2 => hrun k (by omega) k2⟩, cn, hcn, hln⟩
+    rw [h4 hm]
+    rcases hd with rfl | rfl
+    · exact Or.inl rfl
+    · exact Or.inr rfl
+  · rw [hb] at hc1; cases hc1; rw [hl] at hl1; cases hl1
+
+/-- trimming invariant of the name-addr automaton at loop position `i` (`mv` = several values allowed) -/
+structure HxTrI (mv : Bool) (b : Buf) (i : Nat) (pf : PFromBody) : Prop where
+  ext : (pf.state = .nameOrURI ∨ pf.state = .paramName ∨ pf.state = .possibleParamName ∨ pf.state = .paramVal ∨
+    pf.state = .possibleVal) → HxNL b i
+  newP : (pf.state = .newParam ∨ pf.state = .newPossibleParam) → HxNLc mv 59 b i ∨ HxGap mv b i
+  newV : (pf.state = .newParamVal ∨ pf.state = .newPossibleVal) → HxNLc mv 61 b i ∨ HxGap mv b i
+  fixed : (pf.state = .uriFound ∨ pf.state = .nameOrURIEnd ∨ pf.state = .star) → HxNL b (pf.v.offs + pf.v.len)
+  pe : (pf.state = .paramNameEnd ∨ pf.state = .possibleParamNameEnd) → HxNL b pf.pend
+  ve : (pf.state = .paramValEnd ∨ pf.state = .possibleValEnd) → HxNL b pf.vend
+
+/-- the states whose clauses do not depend on the loop position -/
+def HxStill (s : FBState) : Prop :=
+  s ≠ .nameOrURI ∧ s ≠ .paramName ∧ s ≠ .possibleParamName ∧ s ≠ .paramVal ∧ s ≠ .possibleVal ∧
+  s ≠ .newParam ∧ s ≠ .newPossibleParam ∧ s ≠ .newParamVal ∧ s ≠ .newPossibleVal
+
+theorem HxTrI.move {mv : Bool} {b : Buf} {i j : Nat} {pf : PFromBody} (h : HxTrI mv b i pf) (hs : HxStill pf.state) :
+    HxTrI mv b j pf := by
+  obtain ⟨s1, s2, s3, s4, s5, s6, s7, s8, s9⟩ := hs
+  refine ⟨fun hh => ?_, fun hh => ?_, fun hh => ?_, h.fixed, h.pe, h.ve⟩
+  · rcases hh with hh | hh | hh | hh | hh <;> contradiction
+  · rcases hh with hh | hh <;> contradiction
+  · rcases hh with hh | hh <;> contradiction
+
+/-- closes `HxTrI mv b (i+1) X` for an updated object `X` whose state is a constructor or `pf.state`, given
+    `hT : HxTrI mv b i pf`, `hnl : HxNL b (i+1)` and possibly `h59 : HxNLc mv 59 b (i+1)`, `h61 : HxNLc mv 61 b (i+1)` -/
+macro "hx_tr_leaf" hT:ident h59f:ident h61f:ident : tactic =>
+  `(tactic| (have t4 := ($hT).fixed; have t5 := ($hT).pe; have t6 := ($hT).ve
+             refine ⟨fun hh => ?_, fun hh => ?_, fun hh => ?_, fun hh => ?_, fun hh => ?_, fun hh => ?_⟩ <;>
+             first
+               | (exfalso; simp [setFromParamVal_state] at hh; done)
+               | (exfalso; simp_all [setFromParamVal_state]; done)
+               | assumption
+               | (exact Or.inl ($h59f (by assumption)))
+               | (exact Or.inl ($h61f (by assumption)))
+               | (dsimp only [PFromBody.setURI, PFromBody.setName, PFromBody.setV, PFromBody.extV, PFromBody.extParams,
+                    PFromBody.resetUPT]
+                  first
+                    | (rw [(flo_set_end _ _ (by omega) (by omega)).2]; assumption)
+                    | (rw [(flo_extend_end _ _ (by omega) (by omega)).2]; assumption)
+                    | (exact t4 (by simp_all))
+                    | (exact t5 (by simp_all))
+                    | (exact t6 (by simp_all)))))
+
+theorem HxTrI.next_same {mv : Bool} {b : Buf} {i : Nat} {pf : PFromBody} (h : HxTrI mv b i pf) (hnl : HxNL b (i + 1))
+    (hnew : ¬ (pf.state = .newParam ∨ pf.state = .newPossibleParam ∨ pf.state = .newParamVal ∨ pf.state = .newPossibleVal)) :
+    HxTrI mv b (i + 1) pf :=
+  ⟨fun _ => hnl, fun hh => absurd (by rcases hh with hh | hh <;> simp [hh]) hnew,
+   fun hh => absurd (by rcases hh with hh | hh <;> simp [hh]) hnew, h.fixed, h.pe, h.ve⟩
+
+theorem hx_tr_naLWS {mv : Bool} {h : Nat} {b : Buf} {i : Nat} {pf : PFromBody} (hT : HxTrI mv b i pf) (hs : HxStill pf.state)
+    {i' : Nat} {st' : PFromBody} (hs' : naLWS h b i pf = .cont i' st') : HxTrI mv b i' st' := by
+  unfold naLWS at hs'
+  rw [lwsStd_cont_state b i pf _ _ hs']; exact hT.move hs
+
+theorem hx_tr_A (h : Nat) {b : Buf} {i : Nat} {pf : PFromBody} (c : UInt8) (hfit : i < 65535) (hb : b[i]? = some c)
+    (hg : pf.state = .init ∨ pf.state = .name ∨ pf.state = .nameOrURI ∨ pf.state = .nameOrURIEnd)
+    (hI : PnI i pf) (hT : HxTrI (multipleValsOk h) b i pf) {i' : Nat} {st' : PFromBody}
+    (hs : naStepA h b i c pf = .cont i' st') : HxTrI (multipleValsOk h) b i' st' := by
+  unfold naStepA at hs
+  by_cases hl : isLWSch c = true
+  · rw [if_pos hl] at hs
+    split at hs
+    · rename_i hnu
+      have hnu' : pf.state = .nameOrURI := by simpa using hnu
+      refine hx_tr_naLWS ?_ (by simp [HxStill]) hs
+      have hv := hI.lt (by rw [hnu']; decide)
+      have hend := (flo_extend_end pf.v i (by omega) (by omega)).2
+      have hnl := hT.ext (Or.inl hnu')
+      refine ⟨fun hh => ?_, fun hh => ?_, fun hh => ?_, fun _ => ?_, fun hh => ?_, fun hh => ?_⟩
+      · rcases hh with hh | hh | hh | hh | hh <;> cases hh
+      · rcases hh with hh | hh <;> cases hh
+      · rcases hh with hh | hh <;> cases hh
+      · show HxNL b ((pf.v.extend i).offs + (pf.v.extend i).len)
+        rw [hend]; exact hnl
+      · rcases hh with hh | hh <;> cases hh
+      · rcases hh with hh | hh <;> cases hh
+    · rename_i hnu
+      have hnu' : pf.state ≠ .nameOrURI := by simpa using hnu
+      refine hx_tr_naLWS hT ?_ hs
+      rcases hg with g | g | g | g
+      · rw [g]; simp [HxStill]
+      · rw [g]; simp [HxStill]
+      · exact absurd g hnu'
+      · rw [g]; simp [HxStill]
+  · have hl' : isLWSch c = false := by simpa using hl
+    have hnl : HxNL b (i + 1) := hx_nl_succ hb hl'
+    have h59f : (c == 59) = true → HxNLc (multipleValsOk h) 59 b (i + 1) :=
+      fun hc => hx_nlc_succ _ _ hb hl' (fun _ => by simpa using hc)
+    have h61f : (c == 61) = true → HxNLc (multipleValsOk h) 61 b (i + 1) :=
+      fun hc => hx_nlc_succ _ _ hb hl' (fun _ => by simpa using hc)
+    have hnew : ¬ (pf.state = .newParam ∨ pf.state = .newPossibleParam ∨ pf.state = .newParamVal ∨ pf.state = .newPossibleVal) := by
+      rcases hg with g | g | g | g <;> rw [g] <;> simp
+    rw [if_neg hl] at hs
+    repeat' split at hs
+    all_goals first
+      | exact absurd hs (naMoreValues_not_cont h b _ i)
+      | (cases hs; done)
+      | (cases hs; exact hT.next_same hnl hnew)
+      | (cases hs; hx_tr_leaf hT h59f h61f)
+theorem hx_tr_Q (h : Nat) {b : Buf} {i : Nat} {pf : PFromBody} (c : UInt8) (hb : b[i]? = some c)
+    (hg : pf.state = .quoted ∨ pf.state = .quotedVal ∨ pf.state = .quotedPossibleVal)
+    (hT : HxTrI (multipleValsOk h) b i pf) {i' : Nat} {st' : PFromBody}
+    (hs : naStepQ h b i c pf = .cont i' st') : HxTrI (multipleValsOk h) b i' st' := by
+  have hst : HxStill pf.state := by rcases hg with g | g | g <;> rw [g] <;> simp [HxStill]
+  unfold naStepQ at hs
+  by_cases h34 : (c == 34) = true
+  · rw [if_pos h34] at hs
+    have hl' : isLWSch c = false := by
+      have : c = 34 := by simpa using h34
+      subst this; decide
+    have hnl : HxNL b (i + 1) := hx_nl_succ hb hl'
+    have h59f : (c == 59) = true → HxNLc (multipleValsOk h) 59 b (i + 1) :=
+      fun hc => hx_nlc_succ _ _ hb hl' (fun _ => by simpa using hc)
+    have h61f : (c == 61) = true → HxNLc (multipleValsOk h) 61 b (i + 1) :=
+      fun hc => hx_nlc_succ _ _ hb hl' (fun _ => by simpa using hc)
+    repeat' split at hs
+    all_goals (cases hs; hx_tr_leaf hT h59f h61f)
+  · rw [if_neg h34] at hs
+    repeat' split at hs
+    all_goals first
+      | exact hx_tr_naLWS hT hst hs
+      | (cases hs; done)
+      | (cases hs; exact hT.move hst)
+
+theorem hx_tr_U {mv : Bool} {b : Buf} {i : Nat} {pf : PFromBody} (c : UInt8) (hfit : i < 65535) (hb : b[i]? = some c)
+    (hg : pf.state = .uri) (hI : PnI i pf) (hT : HxTrI mv b i pf) {i' : Nat} {st' : PFromBody}
+    (hs : naStepU i c pf = .cont i' st') : HxTrI mv b i' st' := by
+  have hst : HxStill pf.state := by rw [hg]; simp [HxStill]
+  have hv := hI.lt (by rw [hg]; decide)
+  unfold naStepU at hs
+  by_cases h62 : (c == 62) = true
+  · rw [if_pos h62] at hs
+    have hl' : isLWSch c = false := by
+      have : c = 62 := by simpa using h62
+      subst this; decide
+    have hnl : HxNL b (i + 1) := hx_nl_succ hb hl'
+    have h59f : (c == 59) = true → HxNLc mv 59 b (i + 1) := fun hc => hx_nlc_succ _ _ hb hl' (fun _ => by simpa using hc)
+    have h61f : (c == 61) = true → HxNLc mv 61 b (i + 1) := fun hc => hx_nlc_succ _ _ hb hl' (fun _ => by simpa using hc)
+    cases hs
+    hx_tr_leaf hT h59f h61f
+  · rw [if_neg h62] at hs
+    split at hs
+    · cases hs
+    · cases hs; exact hT.move hst
+
+theorem hx_tr_UF (h : Nat) {b : Buf} {i : Nat} {pf : PFromBody} (c : UInt8) (hb : b[i]? = some c)
+    (hg : pf.state = .uriFound) (hT : HxTrI (multipleValsOk h) b i pf) {i' : Nat} {st' : PFromBody}
+    (hs : naStepUF h b i c pf = .cont i' st') : HxTrI (multipleValsOk h) b i' st' := by
+  have hst : HxStill pf.state := by rw [hg]; simp [HxStill]
+  unfold naStepUF at hs
+  by_cases hl : isLWSch c = true
+  · rw [if_pos hl] at hs
+    exact hx_tr_naLWS hT hst hs
+  · have hl' : isLWSch c = false := by simpa using hl
+    have hnl : HxNL b (i + 1) := hx_nl_succ hb hl'
+    have h59f : (c == 59) = true → HxNLc (multipleValsOk h) 59 b (i + 1) :=
+      fun hc => hx_nlc_succ _ _ hb hl' (fun _ => by simpa using hc)
+    have h61f : (c == 61) = true → HxNLc (multipleValsOk h) 61 b (i + 1) :=
+      fun hc => hx_nlc_succ _ _ hb hl' (fun _ => by simpa using hc)
+    rw [if_neg hl] at hs
+    repeat' split at hs
+    all_goals first
+      | exact absurd hs (naMoreValues_not_cont h b _ i)
+      | (cases hs; exact hT.move hst)
+      | (cases hs; hx_tr_leaf hT h59f h61f)
+
+theorem hx_tr_Star (h : Nat) {b : Buf} {i : Nat} {pf : PFromBody} (c : UInt8)
+    (hg : pf.state = .star) (hT : HxTrI (multipleValsOk h) b i pf) {i' : Nat} {st' : PFromBody}
+    (hs : naStepStar h b i c pf = .cont i' st') : HxTrI (multipleValsOk h) b i' st' := by
+  have hst : HxStill pf.state := by rw [hg]; simp [HxStill]
+  unfold naStepStar at hs
+  split at hs
+  · exact hx_tr_naLWS hT hst hs
+  · cases hs
+
+theorem hx_tr_nameWS {mv : Bool} {b : Buf} {i n crl : Nat} {pf : PFromBody} {c : UInt8} (hb : b[i]? = some c)
+    (hl : isLWSch c = true) (hsk : skipLWS b i 0 = (n, crl, .ok))
+    (hg : pf.state = .newParam ∨ pf.state = .newPossibleParam ∨ pf.state = .paramName ∨ pf.state = .possibleParamName)
+    (hT : HxTrI mv b i pf) : HxTrI mv b n (naNameWS pf i) := by
+  unfold naNameWS
+  by_cases h1 : (pf.state == .paramName) = true
+  · rw [if_pos h1]
+    have hnl := hT.ext (Or.inr (Or.inl (by simpa using h1)))
+    refine ⟨fun hh => ?_, fun hh => ?_, fun hh => ?_, fun hh => ?_, fun _ => hnl, fun hh => ?_⟩ <;>
+      (exfalso; simp at hh)
+  · rw [if_neg h1]
+    by_cases h2 : (pf.state == .possibleParamName) = true
+    · rw [if_pos h2]
+      have hnl := hT.ext (Or.inr (Or.inr (Or.inl (by simpa using h2))))
+      refine ⟨fun hh => ?_, fun hh => ?_, fun hh => ?_, fun hh => ?_, fun _ => hnl, fun hh => ?_⟩ <;>
+        (exfalso; simp at hh)
+    · rw [if_neg h2]
+      have h1' : pf.state ≠ .paramName := by simpa using h1
+      have h2' : pf.state ≠ .possibleParamName := by simpa using h2
+      have hg2 : pf.state = .newParam ∨ pf.state = .newPossibleParam := by
+        rcases hg with g | g | g | g
+        · exact Or.inl g
+        · exact Or.inr g
+        · exact absurd g h1'
+        · exact absurd g h2'
+      have hgap := hx_gap_of_skip hb hl hsk (Or.inl rfl) (hT.newP hg2)
+      refine ⟨fun hh => ?_, fun _ => Or.inr hgap, fun hh => ?_, fun hh => ?_, fun hh => ?_, fun hh => ?_⟩ <;>
+        (exfalso; rcases hg2 with g | g <;> rw [g] at hh <;> simp at hh)
+
+theorem hx_paramStart_state {pf : PFromBody} {i : Nat}
+    (hg : pf.state = .newParam ∨ pf.state = .newPossibleParam ∨ pf.state = .paramName ∨ pf.state = .possibleParamName) :
+    (naParamsOffs (naParamStart pf i) i).state = .paramName ∨ (naParamsOffs (naParamStart pf i) i).state = .possibleParamName := by
+  have h1 : (naParamsOffs (naParamStart pf i) i).state = (naParamStart pf i).state := by
+    unfold naParamsOffs; split <;> rfl
+  rw [h1]
+  unfold naParamStart
+  rcases hg with g | g | g | g <;> simp [g]
+
+theorem HxTrI.of_ext {mv : Bool} {b : Buf} {j : Nat} {pf : PFromBody} (hnl : HxNL b j)
+    (hs : pf.state = .nameOrURI ∨ pf.state = .paramName ∨ pf.state = .possibleParamName ∨ pf.state = .paramVal ∨
+      pf.state = .possibleVal) : HxTrI mv b j pf := by
+  refine ⟨fun _ => hnl, fun hh => ?_, fun hh => ?_, fun hh => ?_, fun hh => ?_, fun hh => ?_⟩ <;>
+    (exfalso; rcases hs with g | g | g | g | g <;> rw [g] at hh <;> simp at hh)
+
+theorem HxTrI.of_newP {mv : Bool} {b : Buf} {j : Nat} {pf : PFromBody} (h59 : HxNLc mv 59 b j)
+    (hs : pf.state = .newParam ∨ pf.state = .newPossibleParam) : HxTrI mv b j pf := by
+  refine ⟨fun hh => ?_, fun _ => Or.inl h59, fun hh => ?_, fun hh => ?_, fun hh => ?_, fun hh => ?_⟩ <;>
+    (exfalso; rcases hs with g | g <;> rw [g] at hh <;> simp at hh)
+
+theorem HxTrI.of_newV {mv : Bool} {b : Buf} {j : Nat} {pf : PFromBody} (h61 : HxNLc mv 61 b j)
+    (hs : pf.state = .newParamVal ∨ pf.state = .newPossibleVal) : HxTrI mv b j pf := by
+  refine ⟨fun hh => ?_, fun hh => ?_, fun _ => Or.inl h61, fun hh => ?_, fun hh => ?_, fun hh => ?_⟩ <;>
+    (exfalso; rcases hs with g | g <;> rw [g] at hh <;> simp at hh)
+
+theorem hx_tr_P (h : Nat) {b : Buf} {i : Nat} {pf : PFromBody} (c : UInt8) (hb : b[i]? = some c)
+    (hg : pf.state = .newParam ∨ pf.state = .newPossibleParam ∨ pf.state = .paramName ∨ pf.state = .possibleParamName)
+    (hT : HxTrI (multipleValsOk h) b i pf) {i' : Nat} {st' : PFromBody}
+    (hs : naStepP h b i c pf = .cont i' st') : HxTrI (multipleValsOk h) b i' st' := by
+  unfold naStepP at hs
+  by_cases hl : isLWSch c = true
+  · rw [if_pos hl] at hs
+    rcases hsk : skipLWS b i 0 with ⟨n, crl, e⟩
+    rw [hsk] at hs
+    cases e <;> simp only at hs <;> cases hs
+    exact hx_tr_nameWS hb hl hsk hg hT
+  · have hl' : isLWSch c = false := by simpa using hl
+    have hnl : HxNL b (i + 1) := hx_nl_succ hb hl'
+    have h59f : (c == 59) = true → HxNLc (multipleValsOk h) 59 b (i + 1) :=
+      fun hc => hx_nlc_succ _ _ hb hl' (fun _ => by simpa using hc)
+    have h61f : (c == 61) = true → HxNLc (multipleValsOk h) 61 b (i + 1) :=
+      fun hc => hx_nlc_succ _ _ hb hl' (fun _ => by simpa using hc)
+    have hmvF : ¬ multipleValsOk h = true → ∀ d, HxNLc (multipleValsOk h) d b (i + 1) :=
+      fun hm d => hx_nlc_succ _ _ hb hl' (fun hh => absurd hh hm)
+    have hsame : ∀ d59 : HxNLc (multipleValsOk h) 59 b (i + 1), HxTrI (multipleValsOk h) b (i + 1) pf := by
+      intro d59
+      rcases hg with g | g | g | g
+      · exact HxTrI.of_newP d59 (Or.inl g)
+      · exact HxTrI.of_newP d59 (Or.inr g)
+      · exact HxTrI.of_ext hnl (Or.inr (Or.inl g))
+      · exact HxTrI.of_ext hnl (Or.inr (Or.inr (Or.inl g)))
+    have hps : HxTrI (multipleValsOk h) b (i + 1) (naParamsOffs (naParamStart pf i) i) := by
+      refine HxTrI.of_ext hnl ?_
+      rcases hx_paramStart_state (i := i) hg with g | g
+      · exact Or.inr (Or.inl g)
+      · exact Or.inr (Or.inr (Or.inl g))
+    rw [if_neg hl] at hs
+    repeat' split at hs
+    all_goals first
+      | exact absurd hs (naMoreValues_not_cont h b _ i)
+      | (cases hs; done)
+      | (cases hs; exact hsame (hmvF (by assumption) 59))
+      | (cases hs; exact hsame (h59f (by assumption)))
+      | (cases hs; exact hps)
+      | (cases hs; hx_tr_leaf hT h59f h61f)
+
+theorem hx_tr_PE (h : Nat) {b : Buf} {i : Nat} {pf : PFromBody} (c : UInt8) (hb : b[i]? = some c)
+    (hT : HxTrI (multipleValsOk h) b i pf) {i' : Nat} {st' : PFromBody}
+    (hs : naStepPE h b i c pf = .cont i' st') : HxTrI (multipleValsOk h) b i' st' := by
+  unfold naStepPE at hs
+  by_cases hl : isLWSch c = true
+  · exfalso
+    have h1 : (c == 61) = false := by
+      simp only [isLWSch, Bool.or_eq_true, beq_iff_eq] at hl
+      rcases hl with ((hl | hl) | hl) | hl <;> (subst hl; decide)
+    have h2 : (c == 59) = false := by
+      simp only [isLWSch, Bool.or_eq_true, beq_iff_eq] at hl
+      rcases hl with ((hl | hl) | hl) | hl <;> (subst hl; decide)
+    have h3 : (c == 44) = false := by
+      simp only [isLWSch, Bool.or_eq_true, beq_iff_eq] at hl
+      rcases hl with ((hl | hl) | hl) | hl <;> (subst hl; decide)
+    simp only [h1, h2, h3, Bool.false_eq_true, ↓reduceIte] at hs
+    cases hs
+  · have hl' : isLWSch c = false := by simpa using hl
+    have hnl : HxNL b (i + 1) := hx_nl_succ hb hl'
+    have h59f : (c == 59) = true → HxNLc (multipleValsOk h) 59 b (i + 1) :=
+      fun hc => hx_nlc_succ _ _ hb hl' (fun _ => by simpa using hc)
+    have h61f : (c == 61) = true → HxNLc (multipleValsOk h) 61 b (i + 1) :=
+      fun hc => hx_nlc_succ _ _ hb hl' (fun _ => by simpa using hc)
+    repeat' split at hs
+    all_goals first
+      | exact absurd hs (naCommaAfterWS_not_cont h b _ i _)
+      | (cases hs; done)
+      | (cases hs; hx_tr_leaf hT h59f h61f)
+
+theorem hx_tr_valWS {mv : Bool} {b : Buf} {i n crl : Nat} {pf : PFromBody} {c : UInt8} (hb : b[i]? = some c)
+    (hl : isLWSch c = true) (hsk : skipLWS b i 0 = (n, crl, .ok))
+    (hg : pf.state = .newParamVal ∨ pf.state = .newPossibleVal ∨ pf.state = .paramVal ∨ pf.state = .possibleVal)
+    (hT : HxTrI mv b i pf) : HxTrI mv b n (naValWS pf i n true) := by
+  unfold naValWS
+  rcases hg with g | g | g | g <;> simp only [g, ↓reduceIte]
+  · have hgap := hx_gap_of_skip hb hl hsk (Or.inr rfl) (hT.newV (Or.inl g))
+    refine ⟨fun hh => ?_, fun hh => ?_, fun _ => Or.inr hgap, fun hh => ?_, fun hh => ?_, fun hh => ?_⟩ <;>
+      (exfalso; simp at hh)
+  · have hgap := hx_gap_of_skip hb hl hsk (Or.inr rfl) (hT.newV (Or.inr g))
+    refine ⟨fun hh => ?_, fun hh => ?_, fun _ => Or.inr hgap, fun hh => ?_, fun hh => ?_, fun hh => ?_⟩ <;>
+      (exfalso; simp at hh)
+  · have hnl := hT.ext (Or.inr (Or.inr (Or.inr (Or.inl g))))
+    refine ⟨fun hh => ?_, fun hh => ?_, fun hh => ?_, fun hh => ?_, fun hh => ?_, fun _ => hnl⟩ <;>
+      (exfalso; simp at hh)
+  · have hnl := hT.ext (Or.inr (Or.inr (Or.inr (Or.inr g))))
+    refine ⟨fun hh => ?_, fun hh => ?_, fun hh => ?_, fun hh => ?_, fun hh => ?_, fun _ => hnl⟩ <;>
+      (exfalso; simp at hh)
+
+theorem hx_tr_V (h : Nat) {b : Buf} {i : Nat} {pf : PFromBody} (c : UInt8) (hb : b[i]? = some c)
+    (hg : pf.state = .newParamVal ∨ pf.state = .newPossibleVal ∨ pf.state = .paramVal ∨ pf.state = .possibleVal)
+    (hT : HxTrI (multipleValsOk h) b i pf) {i' : Nat} {st' : PFromBody}
+    (hs : naStepV h b i c pf = .cont i' st') : HxTrI (multipleValsOk h) b i' st' := by
+  unfold naStepV at hs
+  by_cases hl : isLWSch c = true
+  · rw [if_pos hl] at hs
+    rcases hsk : skipLWS b i 0 with ⟨n, crl, e⟩
+    rw [hsk] at hs
+    cases e <;> simp only at hs <;> cases hs
+    exact hx_tr_valWS hb hl hsk hg hT
+  · have hl' : isLWSch c = false := by simpa using hl
+    have hnl : HxNL b (i + 1) := hx_nl_succ hb hl'
+    have h59f : (c == 59) = true → HxNLc (multipleValsOk h) 59 b (i + 1) :=
+      fun hc => hx_nlc_succ _ _ hb hl' (fun _ => by simpa using hc)
+    have h61f : (c == 61) = true → HxNLc (multipleValsOk h) 61 b (i + 1) :=
+      fun hc => hx_nlc_succ _ _ hb hl' (fun _ => by simpa using hc)
+    have hmvF : ¬ multipleValsOk h = true → ∀ d, HxNLc (multipleValsOk h) d b (i + 1) :=
+      fun hm d => hx_nlc_succ _ _ hb hl' (fun hh => absurd hh hm)
+    have hsame : ∀ d61 : HxNLc (multipleValsOk h) 61 b (i + 1), HxTrI (multipleValsOk h) b (i + 1) pf := by
+      intro d61
+      rcases hg with g | g | g | g
+      · exact HxTrI.of_newV d61 (Or.inl g)
+      · exact HxTrI.of_newV d61 (Or.inr g)
+      · exact HxTrI.of_ext hnl (Or.inr (Or.inr (Or.inr (Or.inl g))))
+      · exact HxTrI.of_ext hnl (Or.inr (Or.inr (Or.inr (Or.inr g))))
+    have hsame2 : ¬ (pf.state == .newParamVal) = true → ¬ (pf.state == .newPossibleVal) = true →
+        HxTrI (multipleValsOk h) b (i + 1) pf := by
+      intro n1 n2
+      have n1' : pf.state ≠ .newParamVal := by simpa using n1
+      have n2' : pf.state ≠ .newPossibleVal := by simpa using n2
+      rcases hg with g | g | g | g
+      · exact absurd g n1'
+      · exact absurd g n2'
+      · exact HxTrI.of_ext hnl (Or.inr (Or.inr (Or.inr (Or.inl g))))
+      · exact HxTrI.of_ext hnl (Or.inr (Or.inr (Or.inr (Or.inr g))))
+    rw [if_neg hl] at hs
+    repeat' split at hs
+    all_goals first
+      | exact absurd hs (naMoreValues_not_cont h b _ i)
+      | (cases hs; done)
+      | (cases hs; exact hsame (hmvF (by assumption) 61))
+      | (cases hs; exact hsame2 (by assumption) (by assumption))
+      | (cases hs; hx_tr_leaf hT h59f h61f)
+
+theorem hx_tr_VE (h : Nat) {b : Buf} {i : Nat} {pf : PFromBody} (c : UInt8) (hb : b[i]? = some c)
+    (hT : HxTrI (multipleValsOk h) b i pf) {i' : Nat} {st' : PFromBody}
+    (hs : naStepVE h b i c pf = .cont i' st') : HxTrI (multipleValsOk h) b i' st' := by
+  unfold naStepVE at hs
+  by_cases h59 : (c == 59) = true
+  · have hl' : isLWSch c = false := by
+      have : c = 59 := by simpa using h59
+      subst this; decide
+    have hnl : HxNL b (i + 1) := hx_nl_succ hb hl'
+    have h59f : (c == 59) = true → HxNLc (multipleValsOk h) 59 b (i + 1) :=
+      fun hc => hx_nlc_succ _ _ hb hl' (fun _ => by simpa using hc)
+    have h61f : (c == 61) = true → HxNLc (multipleValsOk h) 61 b (i + 1) :=
+      fun hc => hx_nlc_succ _ _ hb hl' (fun _ => by simpa using hc)
+    rw [if_pos h59] at hs
+    split at hs
+    all_goals (cases hs; hx_tr_leaf hT h59f h61f)
+  · rw [if_neg h59] at hs
+    split at hs
+    · exact absurd hs (naCommaAfterWS_not_cont h b _ i _)
+    · cases hs
+
+/-- **the trimming invariant is kept by every continuing step** -/
+theorem hx_tr_cont (h : Nat) {b : Buf} {i : Nat} {pf : PFromBody} (c : UInt8) (hfit : i < 65535) (hb : b[i]? = some c)
+    (hI : PnI i pf) (hT : HxTrI (multipleValsOk h) b i pf) {i' : Nat} {st' : PFromBody}
+    (hs : naStep h b i c pf = .cont i' st') : HxTrI (multipleValsOk h) b i' st' := by
+  unfold naStep at hs
+  split at hs
+  all_goals first
+    | exact hx_tr_A h c hfit hb (by simp [*]) hI hT hs
+    | exact hx_tr_Q h c hb (by simp [*]) hT hs
+    | exact hx_tr_U c hfit hb (by assumption) hI hT hs
+    | exact hx_tr_UF h c hb (by assumption) hT hs
+    | exact hx_tr_P h c hb (by simp [*]) hT hs
+    | exact hx_tr_PE h c hb hT hs
+    | exact hx_tr_V h c hb (by simp [*]) hT hs
+    | exact hx_tr_VE h c hb hT hs
+    | exact hx_tr_Star h c (by assumption) hT hs
+    | (cases hs
+       refine hT.move ?_
+       rename_i x1 x2 x3 x4 x5 x6 x7 x8 x9 x10 x11 x12 x13 x14 x15 x16 x17 x18 x19 x20 x21
+       refine ⟨?_, ?_, ?_, ?_, ?_, ?_, ?_, ?_, ?_⟩ <;> (intro hq; simp_all))
+
+/-! #### exits -/
+
+/-- the final condition on the value span `v` reported with verdict `e`: the byte before its end is not white space —
+    or (the exception) the verdict is "more values", the byte at its end is the comma, and the span ends with a
+    non-empty run of white space that directly follows a `;` or a `=` -/
+def HxTrC (b : Buf) (e : Err) (v : PField) : Prop :=
+  HxNL b (v.offs + v.len) ∨ (e = .moreValues ∧ b[v.offs + v.len]? = some 44 ∧ HxRun true b (v.offs + v.len))
+
+def HxTrDone (b : Buf) (e : Err) (st' : PFromBody) : Prop := (e = .ok ∨ e = .moreValues) → HxTrC b e st'.v
+
+theorem hx_trd_err {b : Buf} {e : Err} {st' : PFromBody} (h1 : e ≠ .ok) (h2 : e ≠ .moreValues) : HxTrDone b e st' := by
+  intro hh; rcases hh with hh | hh
+  · exact absurd hh h1
+  · exact absurd hh h2
+
+/-- the states in which `endOfHdr` extends the value to the end position -/
+def HxExt13 (s : FBState) : Prop :=
+  s = .nameOrURI ∨ s = .paramName ∨ s = .possibleParamName ∨ s = .paramVal ∨ s = .possibleVal ∨
+  s = .newParam ∨ s = .newPossibleParam ∨ s = .newParamVal ∨ s = .newPossibleVal ∨
+  s = .paramNameEnd ∨ s = .possibleParamNameEnd ∨ s = .paramValEnd ∨ s = .possibleValEnd
+
+def HxFixed (s : FBState) : Prop := s = .uriFound ∨ s = .nameOrURIEnd ∨ s = .star
+
+theorem hx_eoh_verdict (h : Nat) (b : Buf) (pf : PFromBody) (e n crl : Nat) (r : Err)
+    (hc : (naEOH h b pf e n crl r).2.1 = .ok ∨ (naEOH h b pf e n crl r).2.1 = .moreValues) :
+    (naEOH h b pf e n crl r).2.1 = r ∧ (HxFixed pf.state ∨ HxExt13 pf.state) := by
+  unfold naEOH naFinish at hc ⊢
+  cases hst : pf.state <;> simp only [hst] at hc ⊢
+  all_goals first
+    | (exfalso; (rcases hc with hc | hc <;> cases hc); done)
+    | (refine ⟨trivial, ?_⟩; simp [HxFixed, HxExt13])
+
+theorem hx_eoh_fixed (h : Nat) (b : Buf) (pf : PFromBody) (e n crl : Nat) (r : Err) (hf : HxFixed pf.state) :
+    (naEOH h b pf e n crl r).2.2.v = pf.v := by
+  unfold naEOH naFinish
+  rcases hf with g | g | g <;> simp only [g]
+
+theorem hx_tr_eoh (h : Nat) {b : Buf} (pf : PFromBody) (e n crl : Nat) (r : Err)
+    (hpre : pf.state ≠ .init → pf.v.offs < e) (he : e < 65536)
+    (hF : HxFixed pf.state → HxNL b (pf.v.offs + pf.v.len))
+    (hE : HxExt13 pf.state → HxNL b e ∨ (r = .moreValues ∧ b[e]? = some 44 ∧ HxRun true b e)) :
+    HxTrDone b (naEOH h b pf e n crl r).2.1 (naEOH h b pf e n crl r).2.2 := by
+  intro hc
+  obtain ⟨hv, hstate⟩ := hx_eoh_verdict h b pf e n crl r hc
+  by_cases hf : HxFixed pf.state
+  · rw [hx_eoh_fixed h b pf e n crl r hf]
+    exact Or.inl (hF hf)
+  · have h13 : HxExt13 pf.state := by
+      rcases hstate with g | g
+      · exact absurd g hf
+      · exact g
+    obtain ⟨hni, hq⟩ := pn_eoh h b pf e n crl r hc
+    have hvx : (naEOH h b pf e n crl r).2.2.v = pf.v.extend e := by
+      rcases hq with ⟨g, _⟩ | g
+      · exact absurd g hf
+      · exact g
+    rw [hvx, hv]
+    unfold HxTrC
+    rw [(flo_extend_end pf.v e (by have := hpre hni; omega) he).2]
+    exact hE h13
+
+theorem hx_run_cast {mv : Bool} {b : Buf} {i : Nat} (hm : mv = true) (h : HxRun mv b i) : HxRun true b i := by
+  subst hm; exact h
+
+/-- what the invariant gives at an exit position `i` whose byte is white space or the comma -/
+theorem hx_tr_at {h : Nat} {b : Buf} {i : Nat} {pf : PFromBody} {c : UInt8} (hb : b[i]? = some c)
+    (hT : HxTrI (multipleValsOk h) b i pf)
+    (hnpv : pf.state ≠ .paramNameEnd ∧ pf.state ≠ .possibleParamNameEnd ∧ pf.state ≠ .paramValEnd ∧
+      pf.state ≠ .possibleValEnd)
+    (r : Err) (hc : isLWSch c = true ∨ (r = .moreValues ∧ c = 44 ∧ multipleValsOk h = true)) :
+    HxExt13 pf.state → HxNL b i ∨ (r = .moreValues ∧ b[i]? = some 44 ∧ HxRun true b i) := by
+  intro h13
+  have gapCase : HxGap (multipleValsOk h) b i → HxNL b i ∨ (r = .moreValues ∧ b[i]? = some 44 ∧ HxRun true b i) := by
+    intro ⟨hrun, c1, hc1, hl1⟩
+    rcases hc with hc | ⟨hr, hc44, hmv⟩
+    · rw [hb] at hc1; cases hc1; rw [hc] at hl1; cases hl1
+    · subst hc44
+      exact Or.inr ⟨hr, hb, hx_run_cast hmv hrun⟩
+  rcases h13 with g | g | g | g | g | g | g | g | g | g | g | g | g
+  · exact Or.inl (hT.ext (Or.inl g))
+  · exact Or.inl (hT.ext (Or.inr (Or.inl g)))
+  · exact Or.inl (hT.ext (Or.inr (Or.inr (Or.inl g))))
+  · exact Or.inl (hT.ext (Or.inr (Or.inr (Or.inr (Or.inl g)))))
+  · exact Or.inl (hT.ext (Or.inr (Or.inr (Or.inr (Or.inr g)))))
+  · rcases hT.newP (Or.inl g) with q | q
+    · exact Or.inl q.nl
+    · exact gapCase q
+  · rcases hT.newP (Or.inr g) with q | q
+    · exact Or.inl q.nl
+    · exact gapCase q
+  · rcases hT.newV (Or.inl g) with q | q
+    · exact Or.inl q.nl
+    · exact gapCase q
+  · rcases hT.newV (Or.inr g) with q | q
+    · exact Or.inl q.nl
+    · exact gapCase q
+  · exact absurd g hnpv.1
+  · exact absurd g hnpv.2.1
+  · exact absurd g hnpv.2.2.1
+  · exact absurd g hnpv.2.2.2
+
+theorem hx_d_lws (h : Nat) {b : Buf} {i : Nat} {pf : PFromBody} {c : UInt8} (hb : b[i]? = some c) (hl : isLWSch c = true)
+    (hfit : i < 65535) (hI : PnI i pf) (hT : HxTrI (multipleValsOk h) b i pf)
+    (hnpv : pf.state ≠ .paramNameEnd ∧ pf.state ≠ .possibleParamNameEnd ∧ pf.state ≠ .paramValEnd ∧
+      pf.state ≠ .possibleValEnd)
+    {o' : Nat} {e : Err} {st' : PFromBody} (hs : naLWS h b i pf = .done o' e st') : HxTrDone b e st' := by
+  unfold naLWS lwsStd at hs
+  rcases hsk : skipLWS b i 0 with ⟨n, crl, e1⟩
+  rw [hsk] at hs
+  rcases skipLWS_verdicts b i 0 hsk with rfl | rfl | rfl | rfl <;> simp only at hs
+  · cases hs
+  · simp only [Step.done.injEq] at hs
+    obtain ⟨rfl, rfl, rfl⟩ := hs
+    exact hx_tr_eoh h pf i n crl .ok hI.lt (by omega) (fun hf => hT.fixed hf) (hx_tr_at hb hT hnpv .ok (Or.inl hl))
+  · cases hs; exact hx_trd_err (by decide) (by decide)
+  · cases hs; exact hx_trd_err (by decide) (by decide)
+
+theorem hx_d_mv (h : Nat) {b : Buf} {i : Nat} {pf : PFromBody} {c : UInt8} (hb : b[i]? = some c) (h44 : (c == 44) = true)
+    (hmv : multipleValsOk h = true) (hfit : i < 65535) (hI : PnI i pf) (hT : HxTrI (multipleValsOk h) b i pf)
+    (hnpv : pf.state ≠ .paramNameEnd ∧ pf.state ≠ .possibleParamNameEnd ∧ pf.state ≠ .paramValEnd ∧
+      pf.state ≠ .possibleValEnd)
+    {o' : Nat} {e : Err} {st' : PFromBody} (hs : naMoreValues h b pf i = .done o' e st') : HxTrDone b e st' := by
+  unfold naMoreValues at hs
+  simp only [Step.done.injEq] at hs
+  obtain ⟨rfl, rfl, rfl⟩ := hs
+  exact hx_tr_eoh h pf i i 1 .moreValues hI.lt (by omega) (fun hf => hT.fixed hf)
+    (hx_tr_at hb hT hnpv .moreValues (Or.inr ⟨rfl, by simpa using h44, hmv⟩))
+
+theorem hx_d_cws (h : Nat) {b : Buf} {i : Nat} {pf : PFromBody} (x : Nat) (hx : pf.v.offs < x ∧ x < 65536)
+    (hnl : HxNL b x) (hnf : ¬ HxFixed pf.state) {o' : Nat} {e : Err} {st' : PFromBody}
+    (hs : naCommaAfterWS h b pf i x = .done o' e st') : HxTrDone b e st' := by
+  unfold naCommaAfterWS at hs
+  split at hs
+  · simp only [Step.done.injEq] at hs
+    obtain ⟨rfl, rfl, rfl⟩ := hs
+    exact hx_tr_eoh h pf x i 1 .moreValues (fun _ => hx.1) hx.2 (fun hf => absurd hf hnf) (fun _ => Or.inl hnl)
+  · cases hs; exact hx_trd_err (by decide) (by decide)
+
+theorem hx_tr_nuEnd {mv : Bool} {b : Buf} {i : Nat} {pf : PFromBody} (hfit : i < 65535) (hnu : pf.state = .nameOrURI)
+    (hI : PnI i pf) (hT : HxTrI mv b i pf) :
+    HxTrI mv b i { (pf.setURI pf.s i).extV i with state := .nameOrURIEnd } := by
+  have hv := hI.lt (by rw [hnu]; decide)
+  have hend := (flo_extend_end pf.v i (by omega) (by omega)).2
+  have hnl := hT.ext (Or.inl hnu)
+  refine ⟨fun hh => ?_, fun hh => ?_, fun hh => ?_, fun _ => ?_, fun hh => ?_, fun hh => ?_⟩
+  · rcases hh with hh | hh | hh | hh | hh <;> cases hh
+  · rcases hh with hh | hh <;> cases hh
+  · rcases hh with hh | hh <;> cases hh
+  · show HxNL b ((pf.v.extend i).offs + (pf.v.extend i).len)
+    rw [hend]; exact hnl
+  · rcases hh with hh | hh <;> cases hh
+  · rcases hh with hh | hh <;> cases hh
+
+theorem hx_d_A (h : Nat) {b : Buf} {i : Nat} {pf : PFromBody} (c : UInt8) (hfit : i < 65535) (hb : b[i]? = some c)
+    (hg : pf.state = .init ∨ pf.state = .name ∨ pf.state = .nameOrURI ∨ pf.state = .nameOrURIEnd)
+    (hI : PnI i pf) (hT : HxTrI (multipleValsOk h) b i pf)
+    {o' : Nat} {e : Err} {st' : PFromBody} (hs : naStepA h b i c pf = .done o' e st') : HxTrDone b e st' := by
+  have hnpv : pf.state ≠ .paramNameEnd ∧ pf.state ≠ .possibleParamNameEnd ∧ pf.state ≠ .paramValEnd ∧
+      pf.state ≠ .possibleValEnd := by
+    refine ⟨?_, ?_, ?_, ?_⟩ <;> rcases hg with g | g | g | g <;> rw [g] <;> decide
+  unfold naStepA at hs
+  by_cases hl : isLWSch c = true
+  · rw [if_pos hl] at hs
+    split at hs
+    · rename_i hnu
+      have hnu' : pf.state = .nameOrURI := by simpa using hnu
+      refine hx_d_lws h hb hl hfit ?_ (hx_tr_nuEnd hfit hnu' hI hT)
+        ⟨(fun hh => by cases hh), (fun hh => by cases hh), (fun hh => by cases hh), (fun hh => by cases hh)⟩ hs
+      pn_leaf hI
+    · exact hx_d_lws h hb hl hfit hI hT hnpv hs
+  · rw [if_neg hl] at hs
+    by_cases h44 : (c == 44) = true
+    · rw [if_pos h44] at hs
+      split at hs
+      · rename_i hmv
+        exact hx_d_mv h hb h44 hmv hfit hI hT hnpv hs
+      · cases hs
+    · rw [if_neg h44] at hs
+      repeat' (split at hs)
+      all_goals (cases hs <;> exact hx_trd_err (by decide) (by decide))
+
+theorem hx_d_Q (h : Nat) {b : Buf} {i : Nat} {pf : PFromBody} (c : UInt8) (hfit : i < 65535) (hb : b[i]? = some c)
+    (hg : pf.state = .quoted ∨ pf.state = .quotedVal ∨ pf.state = .quotedPossibleVal)
+    (hI : PnI i pf) (hT : HxTrI (multipleValsOk h) b i pf)
+    {o' : Nat} {e : Err} {st' : PFromBody} (hs : naStepQ h b i c pf = .done o' e st') : HxTrDone b e st' := by
+  have hnpv : pf.state ≠ .paramNameEnd ∧ pf.state ≠ .possibleParamNameEnd ∧ pf.state ≠ .paramValEnd ∧
+      pf.state ≠ .possibleValEnd := by
+    refine ⟨?_, ?_, ?_, ?_⟩ <;> rcases hg with g | g | g <;> rw [g] <;> decide
+  unfold naStepQ at hs
+  repeat' (split at hs)
+  all_goals first
+    | exact hx_d_lws h hb (by assumption) hfit hI hT hnpv hs
+    | (cases hs <;> exact hx_trd_err (by decide) (by decide))
+
+theorem hx_d_U {b : Buf} {i : Nat} {pf : PFromBody} (c : UInt8)
+    {o' : Nat} {e : Err} {st' : PFromBody} (hs : naStepU i c pf = .done o' e st') : HxTrDone b e st' := by
+  unfold naStepU at hs
+  repeat' (split at hs)
+  all_goals (cases hs <;> exact hx_trd_err (by decide) (by decide))
+
+theorem hx_d_UF (h : Nat) {b : Buf} {i : Nat} {pf : PFromBody} (c : UInt8) (hfit : i < 65535) (hb : b[i]? = some c)
+    (hg : pf.state = .uriFound) (hI : PnI i pf) (hT : HxTrI (multipleValsOk h) b i pf)
+    {o' : Nat} {e : Err} {st' : PFromBody} (hs : naStepUF h b i c pf = .done o' e st') : HxTrDone b e st' := by
+  have hnpv : pf.state ≠ .paramNameEnd ∧ pf.state ≠ .possibleParamNameEnd ∧ pf.state ≠ .paramValEnd ∧
+      pf.state ≠ .possibleValEnd := by
+    refine ⟨?_, ?_, ?_, ?_⟩ <;> rw [hg] <;> decide
+  unfold naStepUF at hs
+  by_cases hl : isLWSch c = true
+  · rw [if_pos hl] at hs
+    exact hx_d_lws h hb hl hfit hI hT hnpv hs
+  · rw [if_neg hl] at hs
+    by_cases h44 : (c == 44) = true
+    · rw [if_pos h44] at hs
+      split at hs
+      · rename_i hmv
+        exact hx_d_mv h hb h44 hmv hfit hI hT hnpv hs
+      · cases hs
+    · rw [if_neg h44] at hs
+      repeat' (split at hs)
+      all_goals (cases hs <;> exact hx_trd_err (by decide) (by decide))
+
+theorem hx_d_Star (h : Nat) {b : Buf} {i : Nat} {pf : PFromBody} (c : UInt8) (hfit : i < 65535) (hb : b[i]? = some c)
+    (hg : pf.state = .star) (hI : PnI i pf) (hT : HxTrI (multipleValsOk h) b i pf)
+    {o' : Nat} {e : Err} {st' : PFromBody} (hs : naStepStar h b i c pf = .done o' e st') : HxTrDone b e st' := by
+  have hnpv : pf.state ≠ .paramNameEnd ∧ pf.state ≠ .possibleParamNameEnd ∧ pf.state ≠ .paramValEnd ∧
+      pf.state ≠ .possibleValEnd := by
+    refine ⟨?_, ?_, ?_, ?_⟩ <;> rw [hg] <;> decide
+  unfold naStepStar at hs
+  split at hs
+  · exact hx_d_lws h hb (by assumption) hfit hI hT hnpv hs
+  · cases hs; exact hx_trd_err (by decide) (by decide)
+
+theorem hx_nl_of_new {mv : Bool} {d : UInt8} {b : Buf} {i : Nat} {c : UInt8} (hb : b[i]? = some c) (hl : isLWSch c = true)
+    (h : HxNLc mv d b i ∨ HxGap mv b i) : HxNL b i := by
+  rcases h with q | ⟨_, c1, hc1, hl1⟩
+  · exact q.nl
+  · rw [hb] at hc1; cases hc1; rw [hl] at hl1; cases hl1
+
+theorem hx_nameWS_nf {pf : PFromBody} {i : Nat}
+    (hg : pf.state = .newParam ∨ pf.state = .newPossibleParam ∨ pf.state = .paramName ∨ pf.state = .possibleParamName) :
+    ¬ HxFixed (naNameWS pf i).state := by
+  unfold naNameWS HxFixed
+  rcases hg with g | g | g | g <;> simp [g]
+
+theorem hx_valWS_nf {pf : PFromBody} {i n : Nat}
+    (hg : pf.state = .newParamVal ∨ pf.state = .newPossibleVal ∨ pf.state = .paramVal ∨ pf.state = .possibleVal) :
+    ¬ HxFixed (naValWS pf i n false).state := by
+  unfold naValWS HxFixed
+  rcases hg with g | g | g | g <;> simp [g]
+
+theorem hx_d_P (h : Nat) {b : Buf} {i : Nat} {pf : PFromBody} (c : UInt8) (hfit : i < 65535) (hb : b[i]? = some c)
+    (hg : pf.state = .newParam ∨ pf.state = .newPossibleParam ∨ pf.state = .paramName ∨ pf.state = .possibleParamName)
+    (hI : PnI i pf) (hT : HxTrI (multipleValsOk h) b i pf)
+    {o' : Nat} {e : Err} {st' : PFromBody} (hs : naStepP h b i c pf = .done o' e st') : HxTrDone b e st' := by
+  have hnpv : pf.state ≠ .paramNameEnd ∧ pf.state ≠ .possibleParamNameEnd ∧ pf.state ≠ .paramValEnd ∧
+      pf.state ≠ .possibleValEnd := by
+    refine ⟨?_, ?_, ?_, ?_⟩ <;> rcases hg with g | g | g | g <;> rw [g] <;> decide
+  unfold naStepP at hs
+  by_cases hl : isLWSch c = true
+  · rw [if_pos hl] at hs
+    have hnlI : HxNL b i := by
+      rcases hg with g | g | g | g
+      · exact hx_nl_of_new hb hl (hT.newP (Or.inl g))
+      · exact hx_nl_of_new hb hl (hT.newP (Or.inr g))
+      · exact hT.ext (Or.inr (Or.inl g))
+      · exact hT.ext (Or.inr (Or.inr (Or.inl g)))
+    rcases hsk : skipLWS b i 0 with ⟨n, crl, e1⟩
+    rw [hsk] at hs
+    have hX : PnI i (naNameWS pf i) := pn_nameWS hI hfit
+    rcases skipLWS_verdicts b i 0 hsk with rfl | rfl | rfl | rfl <;> simp only at hs
+    · cases hs
+    · simp only [Step.done.injEq] at hs
+      obtain ⟨rfl, rfl, rfl⟩ := hs
+      exact hx_tr_eoh h _ i n crl .ok hX.lt (by omega) (fun hf => absurd hf (hx_nameWS_nf hg)) (fun _ => Or.inl hnlI)
+    · cases hs; exact hx_trd_err (by decide) (by decide)
+    · cases hs; exact hx_trd_err (by decide) (by decide)
+  · rw [if_neg hl] at hs
+    by_cases h44 : (c == 44) = true
+    · rw [if_pos h44] at hs
+      split at hs
+      · rename_i hmv
+        exact hx_d_mv h hb h44 hmv hfit hI hT hnpv hs
+      · cases hs
+    · rw [if_neg h44] at hs
+      repeat' (split at hs)
+      all_goals (cases hs <;> exact hx_trd_err (by decide) (by decide))
+
+theorem hx_d_V (h : Nat) {b : Buf} {i : Nat} {pf : PFromBody} (c : UInt8) (hfit : i < 65535) (hb : b[i]? = some c)
+    (hg : pf.state = .newParamVal ∨ pf.state = .newPossibleVal ∨ pf.state = .paramVal ∨ pf.state = .possibleVal)
+    (hI : PnI i pf) (hT : HxTrI (multipleValsOk h) b i pf)
+    {o' : Nat} {e : Err} {st' : PFromBody} (hs : naStepV h b i c pf = .done o' e st') : HxTrDone b e st' := by
+  have hnpv : pf.state ≠ .paramNameEnd ∧ pf.state ≠ .possibleParamNameEnd ∧ pf.state ≠ .paramValEnd ∧
+      pf.state ≠ .possibleValEnd := by
+    refine ⟨?_, ?_, ?_, ?_⟩ <;> rcases hg with g | g | g | g <;> rw [g] <;> decide
+  unfold naStepV at hs
+  by_cases hl : isLWSch c = true
+  · rw [if_pos hl] at hs
+    have hnlI : HxNL b i := by
+      rcases hg with g | g | g | g
+      · exact hx_nl_of_new hb hl (hT.newV (Or.inl g))
+      · exact hx_nl_of_new hb hl (hT.newV (Or.inr g))
+      · exact hT.ext (Or.inr (Or.inr (Or.inr (Or.inl g))))
+      · exact hT.ext (Or.inr (Or.inr (Or.inr (Or.inr g))))
+    rcases hsk : skipLWS b i 0 with ⟨n, crl, e1⟩
+    rw [hsk] at hs
+    have hX : PnI i (naValWS pf i n false) := pn_valWS false hI hfit
+    rcases skipLWS_verdicts b i 0 hsk with rfl | rfl | rfl | rfl <;> simp only at hs
+    · cases hs
+    · simp only [Step.done.injEq] at hs
+      obtain ⟨rfl, rfl, rfl⟩ := hs
+      exact hx_tr_eoh h _ i n crl .ok hX.lt (by omega) (fun hf => absurd hf (hx_valWS_nf hg)) (fun _ => Or.inl hnlI)
+    · cases hs; exact hx_trd_err (by decide) (by decide)
+    · cases hs; exact hx_trd_err (by decide) (by decide)
+  · rw [if_neg hl] at hs
+    by_cases h44 : (c == 44) = true
+    · rw [if_pos h44] at hs
+      split at hs
+      · rename_i hmv
+        exact hx_d_mv h hb h44 hmv hfit hI hT hnpv hs
+      · cases hs
+    · rw [if_neg h44] at hs
+      repeat' (split at hs)
+      all_goals (cases hs <;> exact hx_trd_err (by decide) (by decide))
+
+theorem hx_d_PE (h : Nat) {b : Buf} {i : Nat} {pf : PFromBody} (c : UInt8)
+    (hg : pf.state = .paramNameEnd ∨ pf.state = .possibleParamNameEnd) (hI : PnI i pf)
+    (hT : HxTrI (multipleValsOk h) b i pf)
+    {o' : Nat} {e : Err} {st' : PFromBody} (hs : naStepPE h b i c pf = .done o' e st') : HxTrDone b e st' := by
+  have hnf : ¬ HxFixed pf.state := by
+    unfold HxFixed; rcases hg with g | g <;> simp [g]
+  unfold naStepPE at hs
+  repeat' (split at hs)
+  all_goals first
+    | exact hx_d_cws h _ (hI.endP hg) (hT.pe hg) hnf hs
+    | (cases hs <;> exact hx_trd_err (by decide) (by decide))
+
+theorem hx_d_VE (h : Nat) {b : Buf} {i : Nat} {pf : PFromBody} (c : UInt8)
+    (hg : pf.state = .paramValEnd ∨ pf.state = .possibleValEnd) (hI : PnI i pf)
+    (hT : HxTrI (multipleValsOk h) b i pf)
+    {o' : Nat} {e : Err} {st' : PFromBody} (hs : naStepVE h b i c pf = .done o' e st') : HxTrDone b e st' := by
+  have hnf : ¬ HxFixed pf.state := by
+    unfold HxFixed; rcases hg with g | g <;> simp [g]
+  unfold naStepVE at hs
+  repeat' (split at hs)
+  all_goals first
+    | exact hx_d_cws h _ (hI.endV hg) (hT.ve hg) hnf hs
+    | (cases hs <;> exact hx_trd_err (by decide) (by decide))
+
+theorem hx_tr_done (h : Nat) {b : Buf} {i : Nat} {pf : PFromBody} (c : UInt8) (hfit : i < 65535) (hb : b[i]? = some c)
+    (hI : PnI i pf) (hT : HxTrI (multipleValsOk h) b i pf)
+    {o' : Nat} {e : Err} {st' : PFromBody} (hs : naStep h b i c pf = .done o' e st') : HxTrDone b e st' := by
+  unfold naStep at hs
+  split at hs
+  all_goals first
+    | exact hx_d_A h c hfit hb (by simp [*]) hI hT hs
+    | exact hx_d_Q h c hfit hb (by simp [*]) hI hT hs
+    | exact hx_d_U c hs
+    | exact hx_d_UF h c hfit hb (by assumption) hI hT hs
+    | exact hx_d_P h c hfit hb (by simp [*]) hI hT hs
+    | exact hx_d_PE h c (by simp [*]) hI hT hs
+    | exact hx_d_V h c hfit hb (by simp [*]) hI hT hs
+    | exact hx_d_VE h c (by simp [*]) hI hT hs
+    | exact hx_d_Star h c hfit hb (by assumption) hI hT hs
+    | cases hs
+
+/-- **the last byte of a reported name-addr value `V`** (ParseNameAddrPVal started on a new object, verdict OK or "more
+    values", any header kind, EVERY input within the 65,535-byte limit): the byte before the end of `V` is not white
+    space (SP, HT, CR, LF) — except in ONE shape: the verdict is "more values", the byte at the end of `V` is the comma,
+    and `V` ends with a non-empty run of white space that directly follows a `;` (an empty parameter: `<a>; ,<b>`) or a
+    `=` (an empty parameter value: `<a>;tag= ,<b>`).  After verdict OK (last value of a line, From / To) `V` never ends
+    with white space. -/
+theorem hx_value_last_byte (h : Nat) (b : Buf) (o : Nat) (hfit : b.size ≤ 65535)
+    {o' : Nat} {e : Err} {pf' : PFromBody} (hp : parseNameAddrPVal h b o {} = (o', e, pf'))
+    (hc : e = .ok ∨ e = .moreValues) : HxTrC b e pf'.v := by
+  unfold parseNameAddrPVal at hp
+  rw [if_neg (by decide)] at hp
+  simp only [Prod.mk.injEq] at hp
+  obtain ⟨rfl, rfl, rfl⟩ := hp
+  have h0 : PnI o { ({} : PFromBody) with s := ({} : PFromBody).soffs, soffs := 0 } :=
+    ⟨fun hh => absurd rfl hh, (fun hh => by rcases hh with hh | hh | hh <;> cases hh),
+     (fun hh => by rcases hh with hh | hh <;> cases hh), (fun hh => by rcases hh with hh | hh <;> cases hh)⟩
+  have t0 : HxTrI (multipleValsOk h) b o { ({} : PFromBody) with s := ({} : PFromBody).soffs, soffs := 0 } :=
+    ⟨(fun hh => by rcases hh with hh | hh | hh | hh | hh <;> cases hh), (fun hh => by rcases hh with hh | hh <;> cases hh),
+     (fun hh => by rcases hh with hh | hh <;> cases hh), (fun hh => by rcases hh with hh | hh | hh <;> cases hh),
+     (fun hh => by rcases hh with hh | hh <;> cases hh), (fun hh => by rcases hh with hh | hh <;> cases hh)⟩
+  have key := runLoop_inv (naMachine h) b (fun i st => PnI i st ∧ HxTrI (multipleValsOk h) b i st)
+    (fun r => HxTrDone b r.2.1 r.2.2)
+    (by
+      intro i c st i' st' hb hP hs
+      have hlt := get?_lt hb
+      refine ⟨fun hlt' => ⟨pn_cont h c (by omega) hP.1 hlt' hs, hx_tr_cont h c (by omega) hb hP.1 hP.2 hs⟩, fun _ => ?_⟩
+      exact hx_trd_err (e := Err.lbug) (by decide) (by decide))
+    (by
+      intro i c st o1 e1 st1 hb hP hs
+      have hlt := get?_lt hb
+      exact hx_tr_done h c (by omega) hb hP.1 hP.2 hs)
+    (by
+      intro i st _ _
+      exact hx_trd_err (e := Err.moreBytes) (by decide) (by decide))
+    o _ ⟨h0, t0⟩
+  rcases hrl : runLoop (naMachine h) b o { ({} : PFromBody) with s := ({} : PFromBody).soffs, soffs := 0 } with ⟨o1, e1, p1⟩
+  rw [hrl] at key hc
+  have := key hc
+  unfold naExit
+  split <;> exact this
+
+
+/-- `HxTrC`, spelled out (`E` = the end of the span) -/
+theorem HxTrC.meaning {b : Buf} {e : Err} {v : PField} (h : HxTrC b e v) :
+    (∃ c, 0 < v.offs + v.len ∧ b[v.offs + v.len - 1]? = some c ∧ isLWSch c = false) ∨
+    (e = .moreValues ∧ b[v.offs + v.len]? = some 44 ∧
+      ∃ j c0, j + 1 < v.offs + v.len ∧ b[j]? = some c0 ∧ (c0 = 59 ∨ c0 = 61) ∧
+        ∀ k, j < k → k < v.offs + v.len → ∃ c', b[k]? = some c' ∧ isLWSch c' = true) := by
+  rcases h with h | ⟨h1, h2, j, c0, a1, a2, _, a4, a5⟩
+  · exact Or.inl h
+  · exact Or.inr ⟨h1, h2, j, c0, a1, a2, a4 rfl, a5⟩
+
+/-- after verdict OK (the last value of a header line; From, To, …) the value never ends with white space -/
+theorem hx_value_last_byte_ok (h : Nat) (b : Buf) (o : Nat) (hfit : b.size ≤ 65535)
+    {o' : Nat} {pf' : PFromBody} (hp : parseNameAddrPVal h b o {} = (o', .ok, pf')) :
+    ∃ c, 0 < pf'.v.offs + pf'.v.len ∧ b[pf'.v.offs + pf'.v.len - 1]? = some c ∧ isLWSch c = false := by
+  rcases hx_value_last_byte h b o hfit hp (Or.inl rfl) with q | ⟨q, _⟩
+  · exact q
+  · cases q
+
+/-- **the parameter span**: if reported, it ends exactly where `V` ends (`NaNest`), so the same statement holds for its
+    last byte -/
+theorem hx_params_last_byte (h : Nat) (b : Buf) (o : Nat) (hfit : b.size ≤ 65535) (ho : o ≤ b.size)
+    {o' : Nat} {e : Err} {pf' : PFromBody} (hp : parseNameAddrPVal h b o {} = (o', e, pf'))
+    (hc : e = .ok ∨ e = .moreValues) :
+    (pf'.params.offs = 0 ∧ pf'.params.len = 0) ∨
+    (pf'.params.offs + pf'.params.len = pf'.v.offs + pf'.v.len ∧ HxTrC b e pf'.params) := by
+  have hN := (parseNameAddrPVal_nest_new h b o hfit ho hp hc).1
+  rcases hN.parL with q | ⟨_, q⟩
+  · exact Or.inl q
+  · refine Or.inr ⟨q, ?_⟩
+    have := hx_value_last_byte h b o hfit hp hc
+    unfold HxTrC at this ⊢
+    rw [q]; exact this
+
+/-! #### tests for (3) (closed computations: examples that pin the shapes, not the general claim) -/
+
+/-- the exception shapes: `;tag= ,` and `; ,` keep the blank inside `V` (`[0, 9)` resp. `[0, 5)`, last byte SP), also when
+    the white space is a folded line; `;tag=1 ,`, `;p ,` and `<a> ,` do not; after OK (`;tag= ` at the end of the line)
+    `V` ends with the `=` -/
+example :
+    (let r := parseNameAddrPVal HdrContact "<a>;tag= ,<b>\r\n\r\n".toUTF8.data 0 {}; (r.2.1, r.2.2.v, r.2.2.params)) =
+      (.moreValues, ⟨0, 9⟩, ⟨4, 5⟩) ∧
+    (let r := parseNameAddrPVal HdrContact "<a>; ,<b>\r\n\r\n".toUTF8.data 0 {}; (r.2.1, r.2.2.v)) = (.moreValues, ⟨0, 5⟩) ∧
+    (let r := parseNameAddrPVal HdrContact "<a>;tag=\r\n ,<b>\r\n\r\n".toUTF8.data 0 {}; (r.2.1, r.2.2.v)) =
+      (.moreValues, ⟨0, 11⟩) ∧
+    (let r := parseNameAddrPVal HdrContact "<a>;tag=1 ,<b>\r\n\r\n".toUTF8.data 0 {}; (r.2.1, r.2.2.v, r.2.2.params)) =
+      (.moreValues, ⟨0, 9⟩, ⟨4, 5⟩) ∧
+    (let r := parseNameAddrPVal HdrContact "<a>;p ,<b>\r\n\r\n".toUTF8.data 0 {}; (r.2.1, r.2.2.v)) = (.moreValues, ⟨0, 5⟩) ∧
+    (let r := parseNameAddrPVal HdrContact "<a> ,<b>\r\n\r\n".toUTF8.data 0 {}; (r.2.1, r.2.2.v)) = (.moreValues, ⟨0, 3⟩) ∧
+    (let r := parseNameAddrPVal HdrContact "<a>;tag= \r\n\r\n".toUTF8.data 0 {}; (r.2.1, r.2.2.v)) = (.ok, ⟨0, 8⟩) := by
+  decide +kernel
 
 end Sipsp
